@@ -458,7 +458,14 @@ def random_session(sid: int, seed: int, length: int = 24) -> dict:
     rng = random.Random(seed)
     s = MSession(sid, seed)
     variables = pick_vars(rng)
+    if rng.random() < 0.2:
+        # focus: most atoms on ONE string variable (==, !=, in, not in, groups with overlapping values) plus a guard
+        # variable - the same-variable tables are then reached from inside cnf / dnf / re-parsing, not only directly
+        v = rng.choice(list(STRING_VARS))
+        w = rng.choice([x for x in list(STRING_VARS) + ["python_version", "extra"] if x != v])
+        variables = [v, v, v, w]
     set_atom_pool(rng, variables, rng.choice([4, 5, 6]))
+    variables = sorted(set(variables))
     live = []
     neutral: list = []
 
